@@ -600,7 +600,26 @@ partial def alignOptions (outOps inOps : List PropOp) (userBefore : List PropOp)
 def argsOf (c : Node) : List Node := match c with | .mk .call _ [_, .mk .list _ args, _] => args | _ => []
 def calleeOfCall (c : Node) : Node := (c.kids.head?).getD nNone
 
-def c20Call (o : Opts) (vueLocals : List (String × String)) (decl : Option String) (ci co : Node) : Option (String × String) :=
+/-- calls of Vue's own defineComponent (by local name AND binding) with their options argument removed: a call NESTED in the
+    arguments of another call is judged on its own (it has its own pair); its legitimate augmentation must not count as a
+    change of the outer call's arguments -/
+partial def blankVueDc (vueLocals : List (String × String)) (n : Node) : Node :=
+  match n with
+  | .mk .call ("usr" :: r) [.mk .ident (nm :: b :: ir) iks, .mk .list las args, tp] =>
+    if vueLocals.contains (nm, b) then
+      .mk .call ("usr" :: r) [.mk .ident (nm :: b :: ir) iks, .mk .list las ((args.take 1 ++ args.drop 2).map (blankVueDc vueLocals)), blankVueDc vueLocals tp]
+    else .mk .call ("usr" :: r) [.mk .ident (nm :: b :: ir) iks, .mk .list las (args.map (blankVueDc vueLocals)), blankVueDc vueLocals tp]
+  | .mk k as ks => .mk k as (ks.map (blankVueDc vueLocals))
+
+def c20Call (o : Opts) (vueLocals : List (String × String)) (decl : Option String) (ci0 co0 : Node) : Option (String × String) :=
+  if shallowCallEq ci0 co0 then none else
+  -- nested Vue defineComponent calls inside the ARGUMENTS are taken out of the comparison (each is judged as its own pair)
+  let blankArgs (c : Node) : Node :=
+    match c with
+    | .mk .call as [callee, .mk .list las args, ta] => .mk .call as [callee, .mk .list las (args.map (blankVueDc vueLocals)), ta]
+    | c => c
+  let ci := if o.resolveType then blankArgs ci0 else ci0
+  let co := if o.resolveType then blankArgs co0 else co0
   if shallowCallEq ci co then none else
   -- the call was changed: it must be an augmentation that is allowed: the callee is exactly (name AND binding) a local that
   -- imports `defineComponent` by name from 'vue' (a syntax context alone is shared by all top-level bindings of the module)
